@@ -88,7 +88,13 @@ class HostPool(object):
                     connection = self._connection_factory()
                     break
                 else:
-                    yield from self._condition.wait()
+                    try:
+                        yield from self._condition.wait()
+                    except asyncio.CancelledError:
+                        # The wake-up may already have been given to this
+                        # waiter; pass it on instead of losing it.
+                        self._condition.notify()
+                        raise
 
             self.busy.add(connection)
         finally:
@@ -257,7 +263,9 @@ class ConnectionPool(object):
             except KeyError:
                 return
             else:
-                yield from release_task
+                # The release must not be cancelled along with whichever
+                # client happens to be waiting for it here.
+                yield from asyncio.shield(release_task)
 
     @asyncio.coroutine
     def session(self, host: str, port: int, use_ssl: bool=False):
